@@ -35,6 +35,7 @@ enum Call {
     FeedFin(usize),
     FeedAlert,
     FeedEof,
+    FeedCutEof(usize),
     FeedErr,
 }
 
@@ -57,6 +58,7 @@ fn parse_call(tok: &str) -> Call {
         ["F", "fin", o] => Call::FeedFin(o.parse().unwrap()),
         ["F", "alert"] => Call::FeedAlert,
         ["F", "eof"] => Call::FeedEof,
+        ["F", "cut", k] => Call::FeedCutEof(k.parse().unwrap()),
         ["F", "err"] => Call::FeedErr,
         _ => panic!("bad call {}", tok),
     }
@@ -333,6 +335,14 @@ async fn run_case(start: bool, groups: Vec<Vec<Call>>, sched: Vec<usize>) -> Str
                             let _ = ftx.send(REv::Eof);
                             break "ok";
                         }
+                        Call::FeedCutEof(k) => {
+                            // the peer goes away k bytes into a frame (header or payload cut), then clean EOF
+                            let fr = frame_bytes(2, 0xFFFF_00AA, b"0123456789abcdef");
+                            let k = (*k).min(fr.len() - 1).max(1);
+                            let _ = ftx.send(REv::Data(fr[..k].to_vec()));
+                            let _ = ftx.send(REv::Eof);
+                            break "ok";
+                        }
                         Call::FeedErr => {
                             let _ = ftx.send(REv::Err(std::io::ErrorKind::ConnectionReset, "injected read error"));
                             break "ok";
@@ -454,9 +464,55 @@ async fn futures_poll_once<F: std::future::Future + Unpin>(mut f: F) -> Option<F
     .await
 }
 
+/// mtstart <iters>: start-up of a client session WITH a heartbeat on a multi-threaded runtime, many
+/// times; the first frame that reaches the transport must be the settings frame (no scheduling control:
+/// a stress run, complementing the deterministic single-threaded schedules).
+pub fn mtstart(args: &[&str]) -> String {
+    let iters: usize = args[0].parse().unwrap();
+    let rt = tokio::runtime::Builder::new_multi_thread()
+        .worker_threads(4)
+        .enable_all()
+        .build()
+        .unwrap();
+    let (bad, first_bad) = rt.block_on(async move {
+        let mut bad = 0usize;
+        let mut first_bad = String::new();
+        for _ in 0..iters {
+            let (reader, _feed_tx) = ChanReader::new();
+            let (writer, wh) = RecWriter::new(None);
+            let hb = anytls_rs::session::SessionHeartbeatConfig {
+                interval: Duration::from_secs(3600),
+                timeout: Duration::from_secs(7200),
+            };
+            let session = Arc::new(Session::new_client(reader, writer, index_scheme(), Some(hb)));
+            let s2 = session.clone();
+            let h = tokio::spawn(async move {
+                let _ = s2.clone().start_client().await;
+                if let Ok((st, _rx)) = s2.open_stream().await {
+                    s2.disable_buffering();
+                    let _ = s2.write_data_frame(st.id(), Bytes::from_static(b"x")).await;
+                }
+            });
+            let _ = h.await;
+            tokio::time::sleep(Duration::from_millis(2)).await;
+            let all = wh.bytes();
+            if !all.is_empty() && all[0] != 4 {
+                bad += 1;
+                if first_bad.is_empty() {
+                    first_bad = format!("cmd{}", all[0]);
+                }
+            }
+            let _ = session.close().await;
+        }
+        (bad, first_bad)
+    });
+    format!("MT iters={} settings_not_first={} {}", iters, bad, first_bad)
+}
+
 pub fn dispatch(drv: &str, args: &[&str]) -> Option<String> {
     match drv {
         "conc" => Some(conc(args)),
+        "mtstart" => Some(mtstart(args)),
         _ => None,
     }
 }
